@@ -212,5 +212,16 @@ def run(ctx):
             ctx.check(not bad, 'C07.R6', 'KmipEngine.%s|identifier-as-received' % meth, site, 'the column is compared with the identifier as received (%s)' % U(val),
                       'the identifier compared with the column is a transformed value (%s): lookups in the same request that use the original spelling can address a different row or none (a Destroy that reports success without deleting, an object that stays readable)' % '; '.join(bad))
     ctx.count('identifier_filter_sites', n_f, 3)
+    # ---------------- C07.R7 (lifted from C08)
+    ctx.rule('C07.R7', 'Destroy removes the row only after every refusal: no failure is raised once the delete was issued (lifted from C08.R3), so a refused Destroy cannot be made permanent by a later commit of the batch')
+    from ..report import Ctx as _LCtx
+    from . import c08 as _lsrc
+    _sub = _LCtx('C08', 'quick', ctx.src, 0)
+    _lsrc.run(_sub)
+    _lifted = [f for f in _sub.findings if f.rule == 'C08.R3' and '_process_destroy' in f.key]
+    for f in _lifted:
+        ctx.fail('C07.R7', f.key, f.site, f.message)
+    if not _lifted:
+        ctx.ok('C07.R7', 'kmip/services/server/engine.py', 'no raise after the delete in Destroy')
     ctx.not_decided += ['SQLite AUTOINCREMENT never reusing a rowid, also across restarts (trusted)', 'identifier behaviour when the process is killed between add() and commit() (C09)']
     ctx.assumptions += ['joined-table inheritance deletes/owns subclass rows through the base row (passive deletes / foreign keys)']
